@@ -240,7 +240,9 @@ func (s *Seq) Clone() *Seq {
 		}
 	}
 
-	return &Seq{literals: cloned}
+	// The coverage flag travels with the literals: a clone of a truncated
+	// sequence is still truncated.
+	return &Seq{literals: cloned, partialCoverage: s.partialCoverage}
 }
 
 // Minimize removes redundant literals from the sequence.
